@@ -44,6 +44,45 @@ impl Api {
 /// `persistent`, every later call too), with an optional earlier benign
 /// deviation. The history stops at the first Err, as a caller using `?` would.
 pub fn run_fault(kvs: &[Kv], reference: &[u8], api: Api, at: usize, fault: Ans, persistent: bool, benign: Option<(usize, Ans)>) -> Result<String, String> {
+    let r = run_fault_inner(kvs, reference, api, at, fault, persistent, benign)?;
+    // a failed build leaves no trace in LATER builds on the same thread: the
+    // same input through a well-behaved sink gives the fault-free bytes
+    // first ANOTHER input with wide nodes over other labels (a rebuild of the
+    // same input could repair whatever the failed build left behind) ...
+    let (pk, pr) = probe();
+    match super::c07::reference(pk) {
+        Ok(again) if &again == pr => {}
+        Ok(_) => return Err("a build of another input (wide nodes over other labels) on the same thread AFTER the failed build produced different bytes than on a fresh thread".into()),
+        Err(e) => return Err(format!("a build of another input on the same thread after the failed build failed: {}", e)),
+    }
+    // ... then the same input again
+    match super::c07::reference(kvs) {
+        Ok(again) if again == reference => Ok(r),
+        Ok(_) => Err("a build of the same input on the same thread AFTER the failed build produced different bytes than before it".into()),
+        Err(e) => Err(format!("a build of the same input on the same thread after the failed build failed: {}", e)),
+    }
+}
+
+/// The probe input built after every failed build, and its bytes as built on
+/// the main thread before any fault was injected.
+fn probe() -> &'static (Vec<Kv>, Vec<u8>) {
+    static P: std::sync::OnceLock<(Vec<Kv>, Vec<u8>)> = std::sync::OnceLock::new();
+    P.get_or_init(|| {
+        let mut kvs: Vec<Kv> = vec![];
+        for b in (0x80u8..0xd0).step_by(2) {
+            kvs.push((vec![b], b as u64 * 1000));
+            kvs.push((vec![b, b'y'], 7));
+        }
+        for b in 1u8..60 {
+            kvs.push((vec![0xf0, b], 1 + b as u64));
+        }
+        kvs.sort();
+        let r = super::c07::reference(&kvs).expect("probe build");
+        (kvs, r)
+    })
+}
+
+fn run_fault_inner(kvs: &[Kv], reference: &[u8], api: Api, at: usize, fault: Ans, persistent: bool, benign: Option<(usize, Ans)>) -> Result<String, String> {
     guard(|| {
         let mut sink = ScriptSink::new(benign.into_iter().collect(), Policy::Default);
         if persistent {
@@ -80,6 +119,18 @@ pub fn run_fault(kvs: &[Kv], reference: &[u8], api: Api, at: usize, fault: Ans, 
             B::S(b) => b.get_ref().data.clone(),
             B::R(b) => b.get_ref().data.clone(),
         };
+        // bytes_written() equals what the sink accepted, also after a failed call
+        let counted_ok = |b: &B| -> Result<(), String> {
+            let (w, a) = match b {
+                B::M(b) => (b.bytes_written(), b.get_ref().data.len()),
+                B::S(b) => (b.bytes_written(), b.get_ref().data.len()),
+                B::R(b) => (b.bytes_written(), b.get_ref().data.len()),
+            };
+            if w != a as u64 {
+                return Err(format!("bytes_written() = {} but the sink has accepted {} bytes", w, a));
+            }
+            Ok(())
+        };
         if ncalls(&b) > at {
             return Err(format!("new returned Ok although sink call {} failed during it", at));
         }
@@ -97,6 +148,7 @@ pub fn run_fault(kvs: &[Kv], reference: &[u8], api: Api, at: usize, fault: Ans, 
             if !reference.starts_with(&data) {
                 return Err("after the bulk call the sink holds bytes that are not a prefix of the fault-free output".into());
             }
+            counted_ok(&b)?;
             match r {
                 Err(e) => {
                     if ncalls(&b) <= at {
@@ -124,6 +176,7 @@ pub fn run_fault(kvs: &[Kv], reference: &[u8], api: Api, at: usize, fault: Ans, 
             if !reference.starts_with(&data) {
                 return Err(format!("after insert {} the sink holds bytes that are not a prefix of the fault-free output", i));
             }
+            counted_ok(&b)?;
             match r {
                 Err(e) => {
                     if ncalls(&b) <= at {
@@ -193,9 +246,10 @@ pub fn replay(case: &Value) -> Result<String, String> {
 }
 
 pub fn plan(tier: Tier) -> Plan {
+    let _ = probe(); // built here, on the main thread, before any fault is injected
     let mut p = Plan::new("C11", "fault_enumeration");
     let thorough = tier.thorough();
-    p.rule = "for each input (the C07 list - every emission site: header, each node form, index table, count byte, footer, checksum, flush - plus every subset of U_ab2 as map and, from 3 keys, as set; a ten-key set and a 40-way fan-out set) W = measured number of sink calls of the fault-free run; for every call index 0..W (writes and the final flush), every failure kind {Err(Other), Err(BrokenPipe), Err(PermissionDenied), Ok(0); for flush also Err(Interrupted)}, single and persistent, through MapBuilder/SetBuilder/raw::Builder (into_inner and finish) with single inserts and with the whole history as one extend_iter / extend_stream call, and additionally with one benign deviation (every short write / Interrupted at every earlier call) before the fault: the API call during which the failing sink call happens must return Err(Io); no panic; no Ok from a call that saw the fault; accepted bytes stay a prefix of the fault-free output. non-trivial = every injected fault (all distinct by index x kind x mode x api)".into();
+    p.rule = "for each input (the C07 list - every emission site: header, each node form, index table, count byte, footer, checksum, flush - plus every subset of U_ab2 as map and, from 3 keys, as set; a ten-key set and a 40-way fan-out set) W = measured number of sink calls of the fault-free run; for every call index 0..W (writes and the final flush), every failure kind {Err(Other), Err(BrokenPipe), Err(PermissionDenied), Ok(0); for flush also Err(Interrupted)}, single and persistent, through MapBuilder/SetBuilder/raw::Builder (into_inner and finish) with single inserts and with the whole history as one extend_iter / extend_stream call, and additionally with one benign deviation (every short write / Interrupted at every earlier call) before the fault: the API call during which the failing sink call happens must return Err(Io); no panic; no Ok from a call that saw the fault; accepted bytes stay a prefix of the fault-free output; bytes_written() equals the accepted bytes also after the failed call; and builds of the same input and of a probe input with other wide nodes on the same thread after the failed build give the fault-free bytes; for inputs of more than 5 keys a short write inside every block write followed by a fault at the next call. non-trivial = every injected fault (all distinct by index x kind x mode x api)".into();
     p.assumptions = vec![
         "the caller stops at the first Err (as with `?`); behaviour of a builder that is used after it returned an error is not asserted".into(),
         "Ok(0) is only injected into write calls, never into flush".into(),
@@ -246,6 +300,34 @@ pub fn plan(tier: Tier) -> Plan {
                                     format!("{} {:?} call {} {:?} persistent={}", name, api, at, fault, persistent),
                                     msg,
                                     json!({"kvs": kvs_json(&kvs), "api": format!("{:?}", api), "at": at, "fault": fault_json(fault), "persistent": persistent, "benign": null}),
+                                );
+                            }
+                        }
+                    }
+                }
+            }
+            // larger inputs: a short write inside every BLOCK write (>= 16 bytes, e.g. the
+            // 256-byte index of a wide node) followed by a fault at the very next call
+            if kvs.len() > 5 && !thorough {
+                for dev_at in 0..w {
+                    let len = calls[dev_at].len;
+                    if calls[dev_at].is_flush || len < 16 {
+                        continue;
+                    }
+                    let mut ns: Vec<usize> = vec![1, 15, 16, 17, len / 2, len - 1];
+                    ns.retain(|&n| n >= 1 && n < len);
+                    ns.dedup();
+                    for n in ns {
+                        for fault in [Ans::Fail(ErrorKind::Other), Ans::Zero] {
+                            st.evals += 1;
+                            st.states += 1;
+                            st.nontrivial += 1;
+                            st.count("faults_after_deviation", 1);
+                            if let Err(msg) = run_fault(&kvs, &reference, Api::RawInsert, dev_at + 1, fault, false, Some((dev_at, Ans::Short(n)))) {
+                                rep.violation(
+                                    format!("{} deviation Short({})@{} then {:?}@{}", name, n, dev_at, fault, dev_at + 1),
+                                    msg,
+                                    json!({"kvs": kvs_json(&kvs), "api": "RawInsert", "at": dev_at + 1, "fault": fault_json(fault), "persistent": false, "benign": [dev_at, n]}),
                                 );
                             }
                         }
